@@ -32,6 +32,12 @@ func runC04(c *fw.Ctx) {
 		runC04State(c)
 		return
 	}
+	if c.S.Draw(8, "equivocation-world") == 7 {
+		// the deviation is an equivocation (two versions of one broadcast, both individually valid):
+		// honest parties notice each other's different views - and must not blame each other
+		runEquivocation(c, true)
+		return
+	}
 	b := NewByz(c, byzOpts(c, 10), mut.SemanticOps, false)
 	b.Headers = true
 	if len(b.Targets) == 0 {
